@@ -232,7 +232,10 @@ Proof.
       * intros x Hx. apply In_tremove in Hx; auto.
       * intros d'; apply up_at_add_tremove.
   - (* UAdd *)
-    cbn [fst].
+    destruct up; cbn [fst].
+    2:{ apply inv_thr_only; auto.
+        - intros x Hx. apply In_tremove in Hx; auto.
+        - intros d'; apply up_at_add_tremove. }
     eapply inv_upd with (d0 := d) (t := t) (th' := TUp (nsof d) d UMeta); simp_st; eauto;
       try apply I; try apply tset_sub.
     + intros k Hk. apply kmem_add_key_other. intros ->; cbn in Hk; congruence.
